@@ -42,6 +42,7 @@ func vpAuditLogL(st *vpStore, self string, takeover bool, prio int, stoppedWithD
 				if t, ok := vpConcreteStr(vpRecTok(m.newVal)); ok {
 					if pt, ok2 := vpConcreteStr(vpRecTok(m.prevVal)); ok2 {
 						vpAssert("C05.refresh-same-token", t == pt)
+						vpAssert("C01.mut.refresh-same-token", t == pt)
 					}
 				}
 			} else if m.prevLive {
